@@ -795,15 +795,14 @@ func ruleC20Validator(c *Ctx) {
 						continue
 					}
 					n++
-					var target *ssa.Function
-					switch v := st.Val.(type) {
-					case *ssa.MakeClosure:
-						target, _ = v.Fn.(*ssa.Function)
-					case *ssa.Function:
-						target = v
-					}
-					if !asksVisibility(target) {
+					targets := closuresOf(st.Val, 0)
+					if len(targets) == 0 {
 						return false
+					}
+					for _, target := range targets {
+						if !asksVisibility(target) {
+							return false
+						}
 					}
 				}
 			}
